@@ -1,4 +1,6 @@
 """Data for MANIFEST.json."""
+TB_GLUE = (" The mode the property speaks of is tied to the command line: Model/Glue.v (main.py option handling) "
+           "is compared with the real wheatley.main.main on every run.")
 TB = ("Trusted: Coq 8.16.1 kernel + vm_compute; the hand-written Gallina model (tied to /repo only by the per-run "
       "correspondence suites, whose strength is that of their generators); the harness (socketio stub, virtual clock, "
       "fake requests.get). No axioms of ours; Print Assumptions output is copied into the evidence file on every run.")
@@ -63,7 +65,7 @@ CLAIMED["C06"] = {
             "start strokes, up-down-in, covers) plus random sessions; rows also judged by an independent row-level "
             "TouchSpec oracle. Granularity: messages land inside sleeps (H); statement-level races inside "
             "start_next_row are NOT covered by the theorem (see DESIGN.md known findings).",
-    "design_ref": "DESIGN.md section 3, C06", "note": TB,
+    "design_ref": "DESIGN.md section 3, C06", "note": TB + TB_GLUE,
     "technique": "Coq proof: inductive invariant over all steps of the system model (induction on fuel) + correspondence",
 }
 CLAIMED["C07"] = {
@@ -73,7 +75,7 @@ CLAIMED["C07"] = {
             "That's all gives rounds at once after a rounds row and exactly one more method row otherwise. Model "
             "tied to the real Bot by exhaustive placement of stop calls; TouchSpec oracle checks rows rung, the point "
             "of standing and the parity of strikes per bell.",
-    "design_ref": "DESIGN.md section 3, C07", "note": TB,
+    "design_ref": "DESIGN.md section 3, C07", "note": TB + TB_GLUE,
     "technique": "Coq proof by case analysis of the control step function + correspondence",
 }
 
@@ -85,7 +87,7 @@ CLAIMED["C08"] = {
             "message history (C20). Tied to the real Bot/Tower by sessions with assignment churn at arbitrary instants "
             "(also inside waits), with/without --name, humans pulling Wheatley's ropes; oracle from the simulated "
             "server's own bookkeeping (owner at tick begin, accepted strokes, once per row, completeness).",
-    "design_ref": "DESIGN.md section 3, C08", "note": TB + " 'At the moment of its turn' is read as the instant the "
+    "design_ref": "DESIGN.md section 3, C08", "note": TB + TB_GLUE + " 'At the moment of its turn' is read as the instant the "
             "tick for that place begins (when the code decides).",
     "technique": "Coq proof (characterisation of the tick's outputs) + correspondence with ground-truth oracle",
 }
@@ -96,7 +98,7 @@ CLAIMED["C16"] = {
             "(sorted); with calls off make_calls is the identity. Tied to the real constructor and Bot by generated "
             "payloads served through a fake requests.get, Go at every row 0..6 or up-down-in, calls on/off; oracle "
             "recomputes rows, call texts, order and instants directly from the payload.",
-    "design_ref": "DESIGN.md section 3, C16", "note": TB + " json.loads / requests are library code outside the model.",
+    "design_ref": "DESIGN.md section 3, C16", "note": TB + TB_GLUE + " json.loads / requests are library code outside the model.",
     "technique": "Coq proof (induction over rows; sortedness/permutation of the flush) + correspondence",
 }
 CLAIMED["C17"] = {
@@ -128,7 +130,7 @@ CLAIMED["C09"] = {
             "functions that mirror WaitForUserRhythm's expect_bell/on_bell_ring; plus: the polling loop has no time-out. "
             "Tied to the code by closed-loop sessions under the virtual clock with adversarial human timing; oracle counts "
             "human strikes from the simulated server's log at every Wheatley strike.",
-    "design_ref": "DESIGN.md section 3, C09", "note": TBR + " Statement-level interleaving inside the arming loop is not "
+    "design_ref": "DESIGN.md section 3, C09", "note": TB + TB_GLUER + " Statement-level interleaving inside the arming loop is not "
             "covered (granularity H).",
     "technique": "Coq proof: inductive invariant over all histories of an abstract band driving the model's bookkeeping functions + correspondence",
 }
@@ -139,7 +141,7 @@ CLAIMED["C11"] = {
             "5040 rows at gap 1 take exactly the requested time. Tied to the code by Wheatley-alone sessions over towers "
             "4..16, speeds 60..600 (and infeasible ones), gaps, up to 40 rows, second touches after a human-bent first "
             "touch; oracle: the closed form in exact rationals, 1e-6 s.",
-    "design_ref": "DESIGN.md section 3, C11", "note": TBR + " The composition of the per-tick lemmas with the system model's "
+    "design_ref": "DESIGN.md section 3, C11", "note": TB + TB_GLUER + " The composition of the per-tick lemmas with the system model's "
             "main loop is by the recurrence theorem, not by a theorem about Sys.run (partial).",
     "technique": "Coq proof over Q (field/lra, induction on blows) + correspondence with closed-form oracle",
 }
@@ -190,7 +192,7 @@ CLAIMED["C10"] = {
             "time-out and ends when the bell has rung (C09). Tied to the code by closed-loop bands (punctual, lagging, "
             "erratic, early, absent), size changes during touches, both rhythms; oracle: no crash, every row completed, "
             "the bell after an awaited human within one interval (+30 ms), keep-going on schedule.",
-    "design_ref": "DESIGN.md section 3, C10", "note": TBR + " Liveness under real OS scheduling is not modelled; the "
+    "design_ref": "DESIGN.md section 3, C10", "note": TB + TB_GLUER + " Liveness under real OS scheduling is not modelled; the "
             "bounded-lag statement is checked by the sessions, not proved (partial). Statement-level races are findings.",
     "technique": "Coq proof (failure-source classification + system invariant) + correspondence",
 }
@@ -217,7 +219,7 @@ CLAIMED["C19"] = {
             "no further tick starts; roll call on entering the ringing loop only; exit only from the idle loop, in "
             "server mode, after > 300 s. Tied to the code by server-mode sessions and by the REAL handlers on real "
             "threads under a deterministic statement scheduler (sys.settrace + cooperative lock).",
-    "design_ref": "DESIGN.md section 3, C19", "note": TBR + " python-socketio's dispatch threading and CPython atomicity below "
+    "design_ref": "DESIGN.md section 3, C19", "note": TB + TB_GLUER + " python-socketio's dispatch threading and CPython atomicity below "
             "a statement are not modelled.",
     "technique": "Coq proof (complete enumeration of lock-respecting merges by vm_compute; algebra over Q) + thread-scheduler correspondence",
 }
